@@ -408,7 +408,7 @@ func (tr *fnTrans) enterBlock(b *ssa.BasicBlock) {
 	// assume invariants at the header
 	ev := tr.loopEval(li, tr.cur, nil)
 	for _, inv := range tr.autoInvariants(li, phis, nil, tr.cur) {
-		if i := strings.Index(inv, "|("); i >= 0 && strings.HasPrefix(inv, "frame:") {
+		if i := strings.Index(inv, "|("); i >= 0 && (strings.HasPrefix(inv, "frame:") || strings.HasPrefix(inv, "freshslice:")) {
 			inv = inv[i+1:]
 		}
 		tr.assume(inv)
@@ -458,6 +458,23 @@ func (tr *fnTrans) autoInvariants(li *loopInfo, phis []*ssa.Phi, ov map[ssa.Valu
 			out = append(out, "frame:"+cn+"|"+fmt.Sprintf("(forall ((qv!x Ref)) (! (=> (< (allocT qv!x) %s) (= (select %s qv!x) (select %s qv!x))) :pattern ((select %s qv!x))))", tr.clock(tr.entry), cur, old, cur))
 		}
 	}
+	// a loop-carried slice that is built by this function (fresh backing array, only appended to) stays fresh
+	for _, ph := range phis {
+		if _, isSlice := types.Unalias(ph.Type()).Underlying().(*types.Slice); !isSlice {
+			continue
+		}
+		if !freshSlicePhi(ph) {
+			continue
+		}
+		t := tr.vals[ph]
+		if ov != nil {
+			t = ov[ph]
+		}
+		if t.S == "" {
+			continue
+		}
+		out = append(out, "freshslice:"+ph.Comment+"|"+and(app(">=", app("allocT", app("s_arr", t.S)), tr.clock(tr.entry)), not(app("=", app("s_arr", t.S), "nilref"))))
+	}
 	for _, ph := range phis {
 		if ph.Comment != "rangeindex" {
 			continue
@@ -495,6 +512,10 @@ func (tr *fnTrans) checkInvariants(li *loopInfo, guard string, st *State, ov map
 	for _, inv := range tr.autoInvariants(li, phis, ov, st) {
 		if i := strings.Index(inv, "|("); i >= 0 && strings.HasPrefix(inv, "frame:") {
 			tr.obligeG(guard, "frame", fmt.Sprintf("loop%d.autoframe.%s.%s", li.ord, inv[len("frame:"):i], what), inv[i+1:], token.NoPos, nil, "loop keeps unlisted heap component on pre-existing objects")
+			continue
+		}
+		if i := strings.Index(inv, "|("); i >= 0 && strings.HasPrefix(inv, "freshslice:") {
+			tr.obligeG(guard, "frame", fmt.Sprintf("loop%d.autofresh.%s.%s", li.ord, inv[len("freshslice:"):i], what), inv[i+1:], token.NoPos, nil, "slice built by this function keeps a backing array allocated by this function")
 			continue
 		}
 		tr.obligeG(guard, "inv", fmt.Sprintf("loop%d.autoidx%d.%s", li.ord, nIdx, what), inv, token.NoPos, nil, "range index bounds")
@@ -914,4 +935,41 @@ func (tr *fnTrans) checkIterEnsures(li *loopInfo, guard string, b *ssa.BasicBloc
 		tr.iterCovered[fmt.Sprintf("%d/%s", li.ord, label)]++
 		tr.obligeG(guard, "iter", fmt.Sprintf("loop%d.iter.%s#%d", li.ord, label, k), s, token.NoPos, tr.propsOfLabel(c.Label), c.Src)
 	}
+}
+
+
+// freshSlicePhi: every value flowing into the phi is a freshly made slice or an append to the phi itself
+// (possibly through other phis of the same kind).
+func freshSlicePhi(ph *ssa.Phi) bool {
+	seen := map[ssa.Value]bool{}
+	var ok func(v ssa.Value) bool
+	ok = func(v ssa.Value) bool {
+		if seen[v] {
+			return true
+		}
+		seen[v] = true
+		switch x := v.(type) {
+		case *ssa.MakeSlice:
+			return true
+		case *ssa.Slice:
+			if a, isA := x.X.(*ssa.Alloc); isA && a.Heap {
+				return true
+			}
+			return false
+		case *ssa.Phi:
+			for _, e := range x.Edges {
+				if !ok(e) {
+					return false
+				}
+			}
+			return true
+		case *ssa.Call:
+			if b, isB := x.Common().Value.(*ssa.Builtin); isB && b.Name() == "append" {
+				return ok(x.Common().Args[0])
+			}
+			return false
+		}
+		return false
+	}
+	return ok(ph)
 }
